@@ -202,8 +202,8 @@ func (w *World) indexMapKeyClosures(fn *ssa.Function) {
 				continue
 			}
 			target := closureOf(mu.Value)
-			if target == nil {
-				continue
+			if target == nil || target.Parent() == nil {
+				continue // named functions keep their own key
 			}
 			ks := strings.Trim(k.Value.ExactString(), "\"")
 			alias := fmt.Sprintf("%s[%q]", base, ks)
